@@ -1,9 +1,10 @@
 #!/usr/bin/env python3
-"""Validate MANIFEST.json and evidence files against the schemas (python3-vt has jsonschema)."""
-import json, sys, glob, jsonschema
-jsonschema.validate(json.load(open('/verif/MANIFEST.json')), json.load(open('/root/.vp/MANIFEST.schema.json')))
+"""Validate MANIFEST.json and evidence files against the schemas (run with python3-vt: needs jsonschema)."""
+import json, sys, glob, os, jsonschema
+V = os.path.dirname(os.path.dirname(os.path.abspath(__file__)))
+jsonschema.validate(json.load(open(os.path.join(V, 'MANIFEST.json'))), json.load(open('/root/.vp/MANIFEST.schema.json')))
 es = json.load(open('/root/.vp/EVIDENCE.schema.json'))
-for f in sorted(glob.glob('/verif/evidence/*.json')):
+for f in sorted(glob.glob(os.path.join(V, 'evidence', '*.json'))):
     jsonschema.validate(json.load(open(f)), es)
     print('ok', f)
 print('manifest ok')
